@@ -109,8 +109,7 @@ theorem coherent_exactHit {h : Hist K} {idx : Nat} {vi fi g : K} (hc : Coherent 
 
 theorem coherent_computeDiffs {h h' : Hist K} (hok : computeDiffs h = .ok h') :
     Coherent h' ∧ h'.bins = h.bins ∧ h'.min = h.min ∧ h'.max = h.max ∧ h'.cap = h.cap ∧ h'.diffs.isSome = true := by
-  unfold computeDiffs at hok
-  simp only at hok
+  rw [computeDiffs_def] at hok
   split at hok
   · rename_i m hm
     simp only [Except.ok.injEq] at hok
@@ -571,11 +570,12 @@ theorem coherent_init (cap : Nat) : Coherent (Hist.init cap : Hist K) := by
   intro d hd; simp [Hist.init] at hd
 
 theorem coherent_load (bins : List (K × K)) (mn mx : Option K) (hne : bins ≠ []) : Coherent (load bins mn mx) := by
+  rw [load_def]
   intro d hd
-  simp only [load, Option.some.injEq] at hd
+  simp only [Option.some.injEq] at hd
   subst hd
-  refine ⟨hne, by simp [load, loadDiffs_eq_gaps], ?_⟩
-  simp only [load, loadDiffs_eq_gaps]
+  refine ⟨hne, by simp [loadDiffs_eq_gaps], ?_⟩
+  simp only [loadDiffs_eq_gaps]
   exact listMin_isMin _
 
 end Distogram
